@@ -6,11 +6,14 @@ CONSTANTS
   MaxT = 3
   MaxRolls = 2
   MaxEp = 6
+  Mode = "auto"
+  ResetClears = FALSE
   FlagRule = "either"
 INVARIANT TypeOK
 INVARIANT FlagsMarkEpisodeStarts
 INVARIANT NoLeak
 INVARIANT ObsChain
+INVARIANT BootstrapObs
 INVARIANT FirstFlagZero
 CONSTRAINT Bound
 CHECK_DEADLOCK FALSE
